@@ -24,5 +24,14 @@ alias trim_idempotent := Genlm.trim_idem
 alias cnf_shape := Genlm.cnf_shape
 /-- unary-cycle removal (given the SCC blocks of the unary graph) leaves no unary cycle -/
 alias unarycycleremove_no_unary_cycle := Genlm.ucycle_no_unary_cycle
+/-- … for the code path as it runs (`_unary_graph`, `Blocks`), if no key of the graph was cancelled away
+(`unaryArcsComplete`, evaluated by the driver on every compared case) … -/
 alias unarycycleremove_no_unary_cycle_graph := Genlm.ucycle_no_unary_cycle_graph
+/-- … which is automatic where non-zero weights cannot cancel -/
+alias unarycycleremove_no_unary_cycle_graph_zsf := Genlm.ucycle_no_unary_cycle_graph_zsf
+alias unary_graph_keeps_every_unary_rule := Genlm.UCycleAux.unaryGraph_arcs
+/-- `has_unary_cycle` (mirror model `hasUnaryCycle`, compared with the real method on every case) decides the
+existence of a cycle of unary rules -/
+alias has_unary_cycle_iff := Genlm.hasUnaryCycle_iff
+alias has_unary_cycle_graph := Genlm.hasUnaryCycle_graph
 end Genlm.Props.C07
